@@ -301,6 +301,9 @@ class CounterToken(Token, FileSystemEventHandler):
                         tokenfile = TokenFile(path)
                         tokenfile.watch()
                         self.cache[path.name] = tokenfile
+                        # Tokens taken by another process are not available
+                        # (on_deleted gives them back)
+                        self.available -= tokenfile.count
         except FileNotFoundError:
             # We did not find the token file... just ignore
             pass
@@ -351,6 +354,7 @@ class CounterToken(Token, FileSystemEventHandler):
                             tokenfile = TokenFile(path)
                             tokenfile.watch()
                             self.cache[path.name] = tokenfile
+                            self.available -= tokenfile.count
                         except FileNotFoundError:
                             # Well, the file did not exist anymore...
                             pass
